@@ -211,6 +211,22 @@ impl Leg for Runs {
                     if let Some((pick, seed)) = distinct {
                         gen::plant_distinct(&mut recs, k, pick, seed);
                     }
+                    // k <= 4, a twelfth of the cases: one long record first, then 20-70 tiny ones that together are as long,
+                    // and a batch limit of the first record's length: a batch of one row followed by a batch of dozens
+                    let h = crate::util::fnv64(format!("{}:{}:{}", recs.len(), k, s).as_bytes());
+                    let (mut recs, mut mem, mut cont) = (recs, mem, cont);
+                    if k <= 4 && h % 12 == 3 {
+                        let n = 20 + (h >> 8) as usize % 51;
+                        let mut x = h | 1;
+                        let mut rnd = |len: usize| -> Vec<u8> { (0..len).map(|_| { x = crate::util::splitmix(x); b"ACGT"[(x >> 33) as usize & 3] }).collect() };
+                        let mut v = vec![Rec { id: "long".into(), desc: None, seq: crate::util::Bytes(rnd(12 * n)) }];
+                        for j in 0..n {
+                            v.push(Rec { id: format!("tiny{}", j), desc: None, seq: crate::util::Bytes(rnd(10 + j % 5)) });
+                        }
+                        recs = v;
+                        mem = Mem::OneRecord;
+                        cont = Container::plain_fasta();
+                    }
                     Case { recs, cont, k, s, norm, threads, mem, giant: None, via_cli: false, cohabitant, stale }
                 })
             })
